@@ -17,7 +17,7 @@ import gc
 from hypothesis import strategies as st
 
 from vk.core import exc_site
-from vk.engine import hyp_search, parallel
+from vk.engine import hyp_collect, hyp_shrink, parallel
 from vk.ref import addrfilter as R
 from xknx.core.telegram_queue import TelegramQueue
 from xknx.telegram import Telegram, TelegramDirection
@@ -99,13 +99,12 @@ def _levels():
 GROUP_CASES = st.fixed_dictionaries(
     {
         "levels": _levels(),
-        "seed": st.integers(0, 2**32 - 1),
-        "extra": st.lists(st.integers(0, 65535), min_size=8, max_size=8),
+        "seed": st.integers(0, 2**32 - 1),  # drives sub-sampling and the 8 random addresses
     }
 )
 SWEEP_CASES = st.fixed_dictionaries({"levels": _levels().filter(R.interesting), "sweep": st.just(True)})
 
-_BODY_ALPHA = "abtesxyz019" + "**??" + "-_. AB"
+_BODY_ALPHA = "abtes019" + "***???" + "-_. AB"
 _NAME_ALPHA = "abtesxyz019-_. AB[]"
 _FILL = st.text(alphabet=st.sampled_from("abtesxz01-_ A"), max_size=3)
 
@@ -149,10 +148,10 @@ def _diagnose(levels, raw: int, exp: bool) -> str:
             for it in lv:
                 e = R.item_match(it, v)
                 if bool(AddressFilter.Range(R.render_item(it)).match(v)) != e:
-                    return f"C02:range-neq:{R.item_kind(it)}:{'false-negative' if e else 'false-positive'}"
+                    return f"C02:range-neq:{R.item_kind(it)}"
             e = R.level_match(lv, v)
             if bool(AddressFilter.LevelFilter(R.render_level(lv)).match(v)) != e:
-                return f"C02:level-neq:{'false-negative' if e else 'false-positive'}"
+                return "C02:level-neq"
     except Exception:  # noqa: BLE001 - diagnosis only
         pass
     return f"C02:filter-neq:L{len(levels)}:{side}"
@@ -189,6 +188,10 @@ def _select_addresses(levels, seed: int, extra: list[int]) -> tuple[list[int], i
             chosen.add(R.join(vals, n))
     nb = len(chosen)
     chosen.update(e & 0xFFFF for e in extra)
+    x = (seed ^ 0x9E3779B9) & 0xFFFFFFFF
+    for _ in range(8):  # random addresses, a pure function of the drawn seed
+        x = (x * 1664525 + 1013904223) & 0xFFFFFFFF
+        chosen.add(x >> 16)
     return sorted(chosen), nb
 
 
@@ -355,16 +358,32 @@ def oracle(ctx, case) -> None:
 
 
 # --------------------------------------------------------------------------- run / replay
+# Workers only collect (vk.engine.hyp_collect); the shrink step of collect-then-shrink runs once in
+# the parent (vk.engine.hyp_shrink per new bucket) instead of once per shard, which is the same
+# procedure as vk.engine.hyp_search without repeating the shrink in each of the 30+ shards.
 def _group_job(ctx, n: int) -> None:
-    hyp_search(ctx, GROUP_CASES, oracle, n, shrink_cap_s=5.0 if ctx.quick else 60.0)
+    hyp_collect(ctx, GROUP_CASES, oracle, n)
 
 
 def _internal_job(ctx, n: int) -> None:
-    hyp_search(ctx, internal_case(), oracle, n, seed_salt=101, shrink_cap_s=5.0 if ctx.quick else 60.0)
+    hyp_collect(ctx, internal_case(), oracle, n, seed_salt=101)
 
 
 def _sweep_job(ctx, n: int) -> None:
-    hyp_search(ctx, SWEEP_CASES, oracle, n, seed_salt=202, shrink_cap_s=5.0 if ctx.quick else 60.0)
+    hyp_collect(ctx, SWEEP_CASES, oracle, n, seed_salt=202)
+
+
+def _shrink_new(ctx, before: set) -> None:
+    new = [b for b in ctx.failures if b not in before and b not in ctx.excluded]
+    cap = 8.0 if ctx.quick else 90.0
+    for b in new[:8]:
+        internal = any("internal" in (r.get("input") or {}) for r in ctx.failures[b])
+        rec = hyp_shrink(ctx, internal_case() if internal else GROUP_CASES, oracle, b, cap, seed_salt=303)
+        if rec is not None:
+            lst = ctx.failures[b]
+            lst.insert(0, {**rec, "shrunk": True})
+            lst.sort(key=lambda r: r["size"])
+            del lst[3:]
 
 
 def _job(ctx, kind: str, n: int) -> None:
@@ -385,6 +404,7 @@ DOCUMENTED = [
 
 
 def run(ctx) -> None:
+    before = set(ctx.failures)
     addr(0)  # build the address table before forking
     for lv in DOCUMENTED:  # the module's documented examples, on all addresses
         check_group(ctx, {"levels": lv, "sweep": True})
@@ -401,6 +421,7 @@ def run(ctx) -> None:
         parallel(ctx, _job, jobs)
     finally:
         gc.unfreeze()
+    _shrink_new(ctx, before)
 
 
 def replay(ctx, case) -> None:
